@@ -392,7 +392,7 @@ extend Req {
 	},
 	{
 		Name:       "any",
-		Covers:     []string{"option with Any payload", "Any in list", "Any nested in option message"},
+		Covers:     []string{"option with Any payload", "Any in list", "Any nested in option message", "Any in map value of option message"},
 		ExtraNames: []string{"google.protobuf.Any"},
 		Files: map[string]string{
 			"opt.proto": `syntax = "proto3";
@@ -409,6 +409,18 @@ extend google.protobuf.MessageOptions {
 message Wrap {
   repeated google.protobuf.Any list = 1;
 }
+extend google.protobuf.FieldOptions {
+  // L:opt.mapped
+  MapWrap mapped = 10103;
+}
+// L:opt.MapWrap
+message MapWrap {
+  map<string, Inner> m = 1;
+}
+// L:opt.Inner
+message Inner {
+  google.protobuf.Any any = 1;
+}
 `,
 			"pay.proto": `syntax = "proto3";
 package pay;
@@ -422,6 +434,8 @@ message Two {
 }
 // L:pay.Three
 message Three {}
+// L:pay.Four
+message Four {}
 `,
 			"a.proto": `syntax = "proto3";
 package p;
@@ -440,6 +454,13 @@ message Listed {
     list: { [type.googleapis.com/pay.One]: { name: "y" } }
   };
   pay.Three t = 1;
+}
+// L:p.Mapped
+message Mapped {
+  // L:p.Mapped.f
+  int32 f = 1 [(opt.mapped) = {
+    m: { key: "k" value: { any: { [type.googleapis.com/pay.Four]: {} } } }
+  }];
 }
 `},
 	},
